@@ -26,6 +26,7 @@ Now == st.clock.ts
 UserTok(a, bn) == st.accts[a].auth \o "." \o st.banks[bn].mint
 TokOf(s, t) == IF Has(s.tok, t) THEN s.tok[t].amount ELSE BZero
 SetTok(tok, t, amt) == [tok EXCEPT ![t] = [@ EXCEPT !.amount = amt]]
+MintOf(bn) == st.mints[st.banks[bn].mint]
 Disabled(a) == Bit(st.accts[a].flags, ACC_DISABLED)
 InRecv(a) == Bit(st.accts[a].flags, ACC_RECEIVERSHIP)
 
@@ -39,7 +40,7 @@ ObsSlot(s) == IF s.act = 1 THEN [act |-> 1, bank |-> s.bank, tag |-> s.tag, a |-
 ObsAcct(a) == [bal |-> [i \in DOMAIN a.bal |-> ObsSlot(a.bal[i])]]
 Obs(s, banks, accts, toks) ==
   [banks |-> [b \in banks |-> ObsBank(s.banks[b])], accts |-> [a \in accts |-> ObsAcct(s.accts[a])],
-   tok |-> [t \in toks |-> [amount |-> s.tok[t].amount]]]
+   tok |-> [t \in toks |-> [amount |-> s.tok[t].amount, withheld |-> s.tok[t].withheld]]]
 
 \* one transition: update, property predicates on (pre, event, post), edge emission
 Do(a, r, post, obs) ==
@@ -78,11 +79,11 @@ Deposit(an, bn, amt) ==
                IF IsErr(foc) THEN Fail(a, foc.err)
                ELSE LET r == ImplIncrease(b1, foc[1], foc[2], FOfInt(amt), "DepositOnly", Now) IN
                     IF IsErr(r) THEN Fail(a, r.err)
-                    ELSE LET ut == UserTok(an, bn) have == TokOf(st, ut) IN
-                         IF BLt(have, BOfInt(amt)) THEN Fail(a, "A1")
+                    ELSE LET ut == UserTok(an, bn) have == TokOf(st, ut) pay == PreFee(MintOf(bn), BOfInt(amt)) IN
+                         IF BLt(have, pay) THEN Fail(a, "A1")
                          ELSE LET b2 == ImplUpdateCache(r.b, Now)
                                   post == [st EXCEPT !.banks[bn] = b2, !.accts[an].bal = SortBal(r.bal),
-                                                     !.tok = SetTok(SetTok(@, ut, BSub(have, BOfInt(amt))), b2.vault_liq, BAdd(TokOf(st, b2.vault_liq), BOfInt(amt)))]
+                                                     !.tok = Xfer(@, MintOf(bn), ut, b2.vault_liq, pay)]
                               IN Do(a, "ok", post, Obs(post, {bn}, {an}, {ut, b2.vault_liq}))
 
 Repay(an, bn, amt, all) ==
@@ -97,12 +98,12 @@ Repay(an, bn, amt, all) ==
                IF i = 0 THEN Fail(a, "BankAccountNotFound")
                ELSE LET r == IF all THEN ImplRepayAll(b1, ac.bal, i) ELSE ImplIncrease(b1, ac.bal, i, FOfInt(amt), "RepayOnly", Now) IN
                     IF IsErr(r) THEN Fail(a, r.err)
-                    ELSE LET pay == IF all THEN r.pay ELSE BOfInt(amt)
+                    ELSE LET pay == PreFee(MintOf(bn), IF all THEN r.pay ELSE BOfInt(amt))
                              ut == UserTok(an, bn) have == TokOf(st, ut)
                          IN IF BLt(have, pay) THEN Fail(a, "A1")
                             ELSE LET b2 == ImplUpdateCache(r.b, Now)
                                      post == [st EXCEPT !.banks[bn] = b2, !.accts[an].bal = SortBal(r.bal),
-                                                        !.tok = SetTok(SetTok(@, ut, BSub(have, pay)), b2.vault_liq, BAdd(TokOf(st, b2.vault_liq), pay))]
+                                                        !.tok = Xfer(@, MintOf(bn), ut, b2.vault_liq, pay)]
                                  IN Do(a, "ok", post, Obs(post, {bn}, {an}, {ut, b2.vault_liq}))
 
 Withdraw(an, bn, amt, all) ==
@@ -115,9 +116,10 @@ Withdraw(an, bn, amt, all) ==
           IF IsErr(b1) THEN Fail(a, b1.err)
           ELSE LET i == FindSlot(ac.bal, bn) IN
                IF i = 0 THEN Fail(a, "BankAccountNotFound")
-               ELSE LET r == IF all THEN ImplWithdrawAll(b1, ac.bal, i) ELSE ImplDecrease(b1, ac.bal, i, FOfInt(amt), "WithdrawOnly", Now) IN
+               ELSE LET pre == PreFee(MintOf(bn), BOfInt(amt))
+                        r == IF all THEN ImplWithdrawAll(b1, ac.bal, i) ELSE ImplDecrease(b1, ac.bal, i, FOfBig(pre), "WithdrawOnly", Now) IN
                     IF IsErr(r) THEN Fail(a, r.err)
-                    ELSE LET pay == IF all THEN r.pay ELSE BOfInt(amt)
+                    ELSE LET pay == IF all THEN r.pay ELSE pre
                              vault == TokOf(st, b1.vault_liq)
                          IN IF BLt(vault, pay) THEN Fail(a, "A1")
                             ELSE LET b2 == ImplUpdateCache(r.b, Now)
@@ -127,7 +129,7 @@ Withdraw(an, bn, amt, all) ==
                                      ut == UserTok(an, bn)
                                  IN IF h # "ok" THEN Fail(a, h)
                                     ELSE LET post == [st EXCEPT !.banks = banks2, !.accts[an].bal = bal2,
-                                                        !.tok = SetTok(SetTok(@, ut, BAdd(TokOf(st, ut), pay)), b2.vault_liq, BSub(vault, pay))]
+                                                        !.tok = Xfer(@, MintOf(bn), b2.vault_liq, ut, pay)]
                                          IN Do(a, "ok", post, Obs(post, {bn}, {an}, {ut, b2.vault_liq}))
 
 Borrow(an, bn, amt) ==
@@ -141,13 +143,14 @@ Borrow(an, bn, amt) ==
                ELSE IF se # "ok" THEN Fail(a, se)
                ELSE LET foc == FindOrCreate(ac.bal, bn, b1.key, b1.cfg.asset_tag, Now) IN
                     IF IsErr(foc) THEN Fail(a, foc.err)
-                    ELSE LET x == FOfInt(amt)
+                    ELSE LET preB == PreFee(MintOf(bn), BOfInt(amt))
+                             x == FOfBig(preB)
                              rate == b1.cfg.ir.orig_fee
                              fee == IF BIsZero(rate) THEN BZero ELSE FMul(x, rate)
                              r == ImplDecrease(b1, foc[1], foc[2], BAdd(x, fee), "BorrowOnly", Now)
                          IN IF IsErr(r) THEN Fail(a, r.err)
                             ELSE LET vault == TokOf(st, b1.vault_liq) IN
-                                 IF BLt(vault, BOfInt(amt)) THEN Fail(a, "A1")
+                                 IF BLt(vault, preB) THEN Fail(a, "A1")
                                  ELSE LET prate == g.fee_cache.rate
                                           pfee == IF BIsZero(prate) THEN BZero ELSE FMul(fee, prate)
                                           b2 == IF BIsZero(fee) THEN r.b
@@ -158,7 +161,7 @@ Borrow(an, bn, amt) ==
                                       IN IF h # "ok" THEN Fail(a, h)
                                          ELSE LET b3 == ImplUpdateCache(b2, Now)
                                                   post == [st EXCEPT !.banks[bn] = b3, !.accts[an].bal = bal2,
-                                                             !.tok = SetTok(SetTok(@, ut, BAdd(TokOf(st, ut), BOfInt(amt))), b3.vault_liq, BSub(vault, BOfInt(amt)))]
+                                                             !.tok = Xfer(@, MintOf(bn), b3.vault_liq, ut, preB)]
                                               IN Do(a, "ok", post, Obs(post, {bn}, {an}, {ut, b3.vault_liq}))
 
 Accrue(bn) ==
@@ -194,11 +197,9 @@ CollectFees(bn) ==
       ata == "ata." \o g.fee_cache.wallet \o "." \o b.mint
       out == BAdd(BAdd(FToInt(ti), FToInt(tg)), FToInt(tp))
       b2 == [b EXCEPT !.fee_ins = BSub(@, ti), !.fee_grp = BSub(@, tg), !.fee_prog = BSub(@, tp)]
-      tok1 == SetTok(st.tok, b.vault_liq, BSub(TokOf(st, b.vault_liq), out))
-      tok2 == SetTok(tok1, b.vault_ins, BAdd(TokOf(st, b.vault_ins), FToInt(ti)))
-      tok3 == SetTok(tok2, b.vault_fee, BAdd(TokOf(st, b.vault_fee), FToInt(tg)))
-      tok4 == IF Has(st.tok, ata) THEN SetTok(tok3, ata, BAdd(TokOf(st, ata), FToInt(tp)))
-              ELSE tok3 @@ (ata :> [mint |-> b.mint, owner |-> g.fee_cache.wallet, amount |-> FToInt(tp), withheld |-> BZero])
+      tok0 == IF Has(st.tok, ata) THEN st.tok ELSE st.tok @@ (ata :> [mint |-> b.mint, owner |-> g.fee_cache.wallet, amount |-> BZero, withheld |-> BZero])
+      tok4 == Xfer(Xfer(Xfer(tok0, MintOf(bn), b.vault_liq, b.vault_fee, FToInt(tg)), MintOf(bn), b.vault_liq, b.vault_ins, FToInt(ti)),
+                   MintOf(bn), b.vault_liq, ata, FToInt(tp))
       post == [st EXCEPT !.banks[bn] = b2, !.tok = tok4]
   IN Do(a, "ok", post, Obs(post, {bn}, {}, {b.vault_liq, b.vault_ins, b.vault_fee, ata}))
 
@@ -270,7 +271,7 @@ Liquidate(lor, lee, abn, lbn, q) ==
                                              ELSE LET hl == ImplInitHealth(banks2, lorBal) IN
                                              IF hl # "ok" THEN Fail(a, hl)
                                              ELSE LET st2 == [st EXCEPT !.banks = banks2, !.accts[lee].bal = leeBal2, !.accts[lor].bal = lorBal,
-                                                                !.tok = SetTok(SetTok(@, lbF.vault_liq, BSub(vault, feeT)), lbF.vault_ins, BAdd(TokOf(st, lbF.vault_ins), feeT))]
+                                                                !.tok = Xfer(@, MintOf(lbn), lbF.vault_liq, lbF.vault_ins, feeT)]
                                                   IN Do(a, "ok", st2, Obs(st2, {abn, lbn}, {lor, lee}, {lbF.vault_liq, lbF.vault_ins}))
 
 Bankruptcy(an, bn, signer) ==
@@ -289,9 +290,9 @@ Bankruptcy(an, bn, signer) ==
      ELSE LET bad == LiabAmount(b1, ac.bal[i].l) IN
      IF ~BGt(bad, IEPS) THEN Fail(a, "BalanceNotBadDebt")
      ELSE LET insAmt == TokOf(st, b1.vault_ins)
-              cov == BMin(bad, FOfBig(insAmt))
+              cov == BMin(bad, FOfBig(PostFee(MintOf(bn), insAmt)))
               soc == BMax(BSub(bad, cov), BZero)
-              covUp == FToInt(FCeil(cov))
+              covUp == PreFee(MintOf(bn), FToInt(FCeil(cov)))
               T == FMul(b1.tas, b1.asv)
               wipe == BLe(T, soc)
               asv2 == IF wipe THEN BZero ELSE FDiv(BSub(T, soc), b1.tas)
@@ -303,7 +304,7 @@ Bankruptcy(an, bn, signer) ==
                       b4 == IF kill THEN [b3 EXCEPT !.cfg.op_state = OP_KILLED] ELSE b3
                       flags2 == IF Bit(ac.flags, ACC_DISABLED) THEN ac.flags ELSE <<ACC_DISABLED>> \o ac.flags
                       post == [st EXCEPT !.banks[bn] = b4, !.accts[an].bal = r.bal, !.accts[an].flags = flags2,
-                                 !.tok = SetTok(SetTok(@, b4.vault_ins, BSub(insAmt, covUp)), b4.vault_liq, BAdd(TokOf(st, b4.vault_liq), covUp))]
+                                 !.tok = Xfer(@, MintOf(bn), b4.vault_ins, b4.vault_liq, covUp)]
                   IN Do(a, "ok", post, Obs(post, {bn}, {an}, {b4.vault_liq, b4.vault_ins}))
 
 Init == /\ st = InitState /\ acc = C02AccNext(C02Acc0, InitState, [ev |-> "reset"], InitState)
@@ -325,6 +326,6 @@ Spec == Init /\ [][Next]_vars
 
 \* fingerprint only the modelled part of the state (not the edge ids)
 View == <<st.clock.ts, [b \in BankNames |-> ObsBank(st.banks[b])], [a \in DOMAIN st.accts |-> ObsAcct(st.accts[a])],
-          [t \in DOMAIN st.tok |-> st.tok[t].amount], [b \in BankNames |-> <<st.banks[b].cfg.fixed_price, st.banks[b].cfg.op_state>>],
+          [t \in DOMAIN st.tok |-> <<st.tok[t].amount, st.tok[t].withheld>>], [b \in BankNames |-> <<st.banks[b].cfg.fixed_price, st.banks[b].cfg.op_state>>],
           [a \in DOMAIN st.accts |-> st.accts[a].flags], depth>>
 =============================================================================
